@@ -194,7 +194,7 @@ func flip(ts [][3]model3d.Coord3D) [][3]model3d.Coord3D {
 
 // Box exposes the explicit box for other harnesses.
 func Box(min, max model3d.Coord3D) [][3]model3d.Coord3D { return box(min, max) }
-func Flip(ts [][3]model3d.Coord3D) [][3]model3d.Coord3D  { return flip(ts) }
+func Flip(ts [][3]model3d.Coord3D) [][3]model3d.Coord3D { return flip(ts) }
 func Tetra(a, b, c, d model3d.Coord3D) [][3]model3d.Coord3D {
 	return tetra(a, b, c, d)
 }
